@@ -444,6 +444,22 @@ REGISTRY = {
                      "representative of each length class, and wide tables over all types and metadata (up to 300 columns, column counts around "
                      "251, up to 50 rows) with random presence and NULL bitmaps, 0..R rows; Rows() result and a CellBytes walk are validated "
                      "against the abstract rows and the spec's CellLen; plus all kinds end to end"),
+    "C14": dict(mode="c14", trace_module="Trace_Codec", trace_cfg="Trace_Codec.cfg", props=["C14"], block_ev=["case"],
+                mc=[MC_CELLSPEC], assumptions=[
+                    "binary JSON comes from the harness's independent serialiser (harness/root/vf_json.go, written from the format description in "
+                    "DESIGN.md A.7); the text printed by the library is parsed into a tree by a small parser in the harness (projection)",
+                    "doubles are compared by the IEEE bits of strconv.ParseFloat(printed text); keys and strings contain no quote characters"],
+                rule="case = document from a recursive generator (depth <= 6, fan-out <= 40; objects, arrays, literals, integers at every width "
+                     "boundary in all six integer types, doubles, strings, opaque DATE/TIME (both signs)/DATETIME/DECIMAL), every scalar also at "
+                     "top level and inlined/out-of-line inside small and large containers, forced-large encodings, and real >= 64KB documents"),
+    "C20": dict(mode="c20", trace_module="Trace_Codec", trace_cfg="Trace_Codec.cfg", props=["C20"], block_ev=["case"],
+                mc=[MC_CELLSPEC], assumptions=[
+                    "the JSON text is parsed back with encoding/json (projection); the Go value is projected by the same recorder as deliveries",
+                    "texts are compared verbatim when they are valid UTF-8 (RFC 3629 validator in TLA+); type names are checked to identify the type "
+                    "(code -> name is a function and injective over the whole run), not against a fixed name table"],
+                rule="case = one transaction serialised by the real json.Marshal: every transaction delivered end to end by generated histories "
+                     "(all column types) plus synthetic transactions with control characters, quotes, <>&, invalid UTF-8, empty vs nil in names, SQL "
+                     "and data, all column type codes, nil/empty row lists, negative and 2^63-scale offsets"),
     "C15": dict(parts=[dict(mode="c15a", trace_module="Trace_Codec", trace_cfg="Trace_Codec.cfg", props=["C15"], block_ev=["case"]),
                        dict(mode="c15b", trace_module="Trace_Stream", trace_cfg="Trace_Stream.cfg", props=["C15"])],
                 mc=[MC_STREAMER], assumptions=STREAM_ASSUME,
